@@ -143,6 +143,7 @@ type lsResult struct {
 	Detail string
 	Stats  lsStats
 	Dyn    []dynIns
+	Mech   []string // mechanism signatures observed in the machine's own event log (dynamic triggers)
 }
 
 // buildDyn reconstructs the dynamic instruction stream in program (fetch)
@@ -279,6 +280,7 @@ func lockstep(c config, p rProg, ref *refState, obs *observation) lsResult {
 	dyn, st, anomaly := buildDyn(c, obs.Log)
 	res.Stats = st
 	res.Dyn = dyn
+	res.Mech = mechanismSignatures(p, dyn, obs)
 	// survivors in program order
 	var surv []int
 	for i := range dyn {
@@ -623,4 +625,46 @@ func squashedRegVals(dyn []dynIns, obs *observation) map[int][]int32 {
 		}
 	}
 	return m
+}
+
+// mechanismSignatures derives triggers from the machine's own event log:
+//
+//	early-commit: a conditional branch resolved not-taken (which commits all speculative
+//	              register state) while an older conditional branch had been decoded and
+//	              not yet executed;
+//	nested-flush: a flush was requested by a branch that was itself squashed later, or two
+//	              conditional branches were in flight together.
+func mechanismSignatures(p rProg, dyn []dynIns, obs *observation) []string {
+	early, nested := false, false
+	isCond := func(pc int32) bool {
+		i := int(pc / 4)
+		return i >= 0 && i < len(p.Ins) && isCondBranch(p.Ins[i].Op)
+	}
+	for i, d := range dyn {
+		if d.Exec < 0 || !isCond(d.Pc) {
+			continue
+		}
+		taken := obs.Log[d.Exec].Exe.PcChange
+		for j := 0; j < i; j++ {
+			o := dyn[j]
+			if !isCond(o.Pc) {
+				continue
+			}
+			if o.Exec < 0 || o.Exec > d.Exec {
+				// an older conditional branch was still unresolved when this one executed
+				nested = true
+				if !taken {
+					early = true
+				}
+			}
+		}
+	}
+	var out []string
+	if early {
+		out = append(out, "early-commit")
+	}
+	if nested {
+		out = append(out, "nested-branches")
+	}
+	return out
 }
